@@ -93,6 +93,7 @@ pub struct Unit {
     pub type_map: Vec<(String, String)>,
     pub path_map: Vec<(String, String)>,
     pub uses: Vec<String>,
+    pub features: Vec<String>,
     pub method_map: Vec<(String, String)>,
     pub strlit: Option<String>, // R-STR: string literals in expression position become `<strlit>("lit")`
     pub items: Vec<Item>,
@@ -179,7 +180,7 @@ pub fn preprocess(text: &str, dir: &std::path::Path, depth: usize) -> Result<Str
                 match is_directive(l) {
                     Some(("unit", _)) | Some(("serves", _)) => continue,
                     Some(("prelude", a)) => { flush(&mut buf, &mut pending_fn, &mut out); out.push_str(&format!("@prelude {}\n", a)); }
-                    Some((d, _)) if matches!(d, "fn" | "lift" | "callorder" | "raw" | "spec" | "type" | "impl" | "endimpl" | "const" | "derive" | "use" | "enum-eq" | "path-map" | "type-map" | "method-map" | "assume" | "not-under-contract" | "stub-eq" | "trusted-allow" | "strlit") => {
+                    Some((d, _)) if matches!(d, "fn" | "lift" | "callorder" | "raw" | "spec" | "type" | "impl" | "endimpl" | "const" | "derive" | "use" | "feature" | "enum-eq" | "path-map" | "type-map" | "method-map" | "assume" | "not-under-contract" | "stub-eq" | "trusted-allow" | "strlit") => {
                         flush(&mut buf, &mut pending_fn, &mut out);
                         pending_fn = matches!(d, "fn" | "lift" | "callorder");
                         buf.push(l.to_string());
@@ -251,6 +252,7 @@ pub fn parse(text: &str) -> Result<Unit, String> {
                 for l in full.lines() { if let Some((x, y)) = l.split_once("=>") { unit.type_map.push((x.trim().replace(' ', ""), y.trim().to_string())); } }
             }
             "strlit" => unit.strlit = Some(full_trim),
+            "feature" => unit.features.extend(full_trim.split_whitespace().map(String::from)),
             "use" => unit.uses.push(format!("use {};", full_trim.trim_end_matches(';'))),
             "path-map" => {
                 for l in full.lines() { if let Some((x, y)) = l.split_once("=>") { unit.path_map.push((x.trim().to_string(), y.trim().to_string())); } }
